@@ -201,8 +201,18 @@ impl MetricManager for RecMgr {
     }
 }
 
+/// component `eon` only: the node's manager rebuilds the template registry on EVERY birth the documented way
+/// (`clear()` then `register::<T>()`), so that a second and later birth meets a registry with a history
+pub static TEMPLATE_CHURN: AtomicBool = AtomicBool::new(false);
+
 #[async_trait]
 impl NodeMetricManager for RecMgr {
+    fn birth_update_template_registry(&self, reg: &mut srad_eon::TemplateRegistry) {
+        if TEMPLATE_CHURN.load(Ordering::SeqCst) {
+            reg.clear();
+            let _ = reg.register::<crate::derive::Leaf>();
+        }
+    }
     async fn on_ncmd(&self, _node: NodeHandle, _metrics: MessageMetrics) {
         self.hub.note("CB:ncmd");
         self.ctl.gate().await;
@@ -2063,6 +2073,7 @@ pub const RULE: &str = "edge-node schedules through the real EoN / NodeHandle / 
 pub fn run(args: &Args, out: &mut Out) -> &'static str {
     install_hook();
     token();
+    TEMPLATE_CHURN.store(true, Ordering::SeqCst);
     let mut rng = Rng::new(args.seed);
     let th = args.thorough();
     scripted(out);
@@ -2091,6 +2102,7 @@ pub fn run(args: &Args, out: &mut Out) -> &'static str {
 pub fn replay(_desc: &str, ops: &[String], out: &mut Out) {
     install_hook();
     token();
+    TEMPLATE_CHURN.store(true, Ordering::SeqCst);
     // `Case` borrows `out`; keep the borrow local to each case
     let mut groups: Vec<Vec<&str>> = vec![];
     for l in ops {
